@@ -319,7 +319,7 @@ def gen_lattice(ctx):
                 for thr in "01":
                     L.append("W - - set 1 %s %s %s %s" % (cur, v, b, thr))
     # ---- end-to-end
-    combos = [(h, k) for h in "JG" for k in "SIY"]
+    combos = [(h, k) for h in "JG" for k in "SIYN"]      # N: the canonical numeric STRING "7" (Idx traps of a Go handler)
     rot = [0]
     def kinds(full):
         if full:
@@ -588,10 +588,12 @@ PROBES = [
      "C11/lockstep-probe: mapped arguments object: Object.keys lists a mapped property redefined as non-enumerable"),
     ("arrlen", "Q arr 1 J def/length/i1,0,0,0,-,-;sset/length/N",
      "C11/lockstep-probe: array: assigning an invalid length to a non-writable length throws RangeError instead of failing as a non-writable property"),
+    ("forin-inproto", "Q inproto-obj 1 J forin",
+     "C11/lockstep-probe: for-in skips the enumerable keys of a Proxy in the prototype chain"),
     ("fnlazy", "Q fnlazy 1 J ldel/x;odef/zz/-,0,-,-,-,-",
      "C11/lockstep-probe: function: position of the lazily created 'prototype' among the own keys depends on the access history"),
 ]
-ACTIVE = {"margs", "arrlen", "fnlazy"}      # recomputed by run_probes() on every run
+ACTIVE = {"margs", "arrlen", "fnlazy", "forin-inproto"}      # recomputed by run_probes() on every run
 
 KIND_CFG_ALL = {
     # String object: JSON.stringify depends on the [[StringData]] slot, which a proxy does not have (spec-mandated difference).
@@ -602,7 +604,15 @@ KIND_CFG_RESTRICTED = {
     "margs": {"descs": VALUE_DESCS, "drop": ["freeze", "seal", "isFrozen", "isSealed"]},
 }
 
+INPROTO_BASES = ["obj", "pobj", "nobj", "frozen", "arr", "pidx", "str", "fn", "ta", "uacc"]
+
 def kind_cfg(kind):
+    if kind.startswith("inproto-"):
+        # the proxy is in the prototype chain of an ordinary child object; operations that change the child's prototype
+        # would cut the proxy out, so they are left out
+        base = dict(kind_cfg(kind[8:]))
+        base["drop"] = list(base.get("drop", [])) + ["spo", "ospo"] + (["forin"] if "forin-inproto" in ACTIVE else [])
+        return base
     if kind in KIND_CFG_RESTRICTED and kind in ACTIVE:
         return KIND_CFG_RESTRICTED[kind]
     return KIND_CFG_ALL.get(kind, {})
@@ -630,7 +640,7 @@ def gen_op(rng, kind):
     cfg = kind_cfg(kind)
     for _ in range(50):
         r = rng.random()
-        k = rng.choice(KIND_KEYS[kind])
+        k = rng.choice(KIND_KEYS[kind[8:]] + ["own"] if kind.startswith("inproto-") else KIND_KEYS[kind])
         if r < 0.34:
             op = "%s/%s" % (rng.choice(KEY_OPS), k)
         elif r < 0.52:
@@ -646,6 +656,8 @@ def gen_op(rng, kind):
             op = "%s/%s/%s" % (rng.choice(KEYDESC_OPS), k, rng.choice(cfg.get("descs", SEQ_DESCS)))
         elif r < 0.74:
             op = "%s/%s" % (rng.choice(PROTO_OPS), rng.choice(["n", "o10", "o11"]))
+        elif kind in ("fn", "inproto-fn") and False:
+            pass
         elif kind == "fn" and r < 0.80:
             op = rng.choice(["call/i4", "new/i1"])
         else:
@@ -670,7 +682,18 @@ def gen_seqs(ctx):
                 for _ in range(per):
                     n = ctx.rng.randint(3, 12 if thorough else 9)
                     ops = [gen_op(ctx.rng, kind) for _ in range(n)]
-                    lines.append("Q %s %d %s %s" % ("fnlazy" if kind == "fn" and "fnlazy" not in ACTIVE else kind, layers, hk, ";".join(ops)))
+                    fresh = "fresh " if ctx.rng.random() < 0.08 else ""     # first operations on a fresh runtime
+                    lines.append("Q %s%s %d %s %s" % (fresh, "fnlazy" if kind == "fn" and "fnlazy" not in ACTIVE else kind, layers, hk, ";".join(ops)))
+    # a forwarding proxy in the PROTOTYPE chain of an ordinary object (inherited lookups with a foreign receiver)
+    per2 = 24 if thorough else 4
+    for base in INPROTO_BASES:
+        kind = "inproto-" + base
+        for layers in (1, 2):
+            for hk in ("J", "G"):
+                for _ in range(per2):
+                    n = ctx.rng.randint(3, 10)
+                    ops = [gen_op(ctx.rng, kind) for _ in range(n)]
+                    lines.append("Q %s %d %s %s" % (kind, layers, hk, ";".join(ops)))
     return lines
 
 def corpus_lines(modes=("Q",)):
@@ -832,6 +855,8 @@ def lockstep(ctx, harness, model):
     opmix, kinds, nops = {}, {}, 0
     for li, (l, o) in enumerate(zip(lines, out)):
         f = l.split()
+        if f[1] == "fresh":
+            f = [f[0]] + f[2:]
         ctx.count(1)
         if f[1] == "revoked":
             if not o.startswith("OK"):
@@ -852,7 +877,7 @@ def lockstep(ctx, harness, model):
             op, res, facts, log = parts
             nops += 1
             opmix[op.split("/")[0]] = opmix.get(op.split("/")[0], 0) + 1
-            ml = model_line(int(f[2]), op, res, facts, tm)
+            ml = None if f[1].startswith("inproto-") else model_line(int(f[2]), op, res, facts, tm)
             if ml is not None:
                 mlines.append(ml[0]); mexp.append((ml[1], log or "-")); mref.append((li, op))
                 mt = ml[0].split()
@@ -871,7 +896,7 @@ def lockstep(ctx, harness, model):
     bad = unknown + [b for b in bad if b not in unknown][:3]
     seen = set()
     for li, o in bad[:40]:
-        l = lines[li]
+        l = lines[li].replace("Q fresh ", "Q ", 1)
         f = l.split()
         sig = seq_signature(l, o)
         ops = f[4].split(";") if f[1] != "revoked" else []
@@ -1147,7 +1172,9 @@ def main(ctx):
 
 def history_problems(line, out):
     """problems of one lock-step history given the harness answer (no Lean needed)"""
-    f = line.split()
+    f = line.replace("Q fresh ", "Q ", 1).split()
+    if f[1].startswith("inproto-"):
+        return [] if out.startswith("OK ") else [out]
     if f[1] == "fnkind":
         return [] if out.startswith("OK ") else [out]
     if f[1] == "keylie":
